@@ -34,6 +34,9 @@ CONSTANTS NF,          \* number of faulty clients (they arrive in index order)
           Fixes,       \* subset of AllFixes that is in force
           PlanSet,     \* fault plans [req, step, mode] a faulty client may follow
           LateAfter,   \* TRUE: the late healthy client arrives only after every faulty client has vanished (replay shape)
+          LeakPop,     \* mutant switch (TLC must reject it): when the reply of a context create cannot be sent, the entry of
+                       \* that id is popped and terminated - also when the create had been REFUSED as a duplicate, i.e. the
+                       \* entry belongs to another, healthy client
           StepSend     \* FALSE: a client's writes up to its next read are one step (TCP buffers them; the reduction used
                        \* everywhere); TRUE: they arrive piecewise (unreduced; the driver checks that the outcomes are the same)
 
@@ -61,7 +64,7 @@ VARIABLES plan,        \* client -> its plan
           backend,     \* client -> "none" "starting" "reported" "running" "dead"
           ctxs,        \* registered context ids (1 belongs to the healthy party, 2 is used by faulty clients)
           orphans,     \* helper processes built for a duplicate registration (not in the table)
-          hOK          \* the healthy client's running worker has not been touched
+          hOK          \* the healthy client's running worker, its context (id 1) and the worker in it have not been touched
 vars == <<plan, cpc, dsent, dopen, cst, copen, addrSent, infoSent, replySent, backlog, spc, cur, inctx,
           children, backend, ctxs, orphans, hOK>>
 
@@ -92,13 +95,14 @@ Arrive(c) ==
            /\ UNCHANGED <<dsent, backlog>>
       ELSE /\ backlog' = Append(backlog, c)
            /\ dsent' = [dsent EXCEPT ![c] = IF StepSend THEN "none" ELSE SentFor(plan[c].step)]   \* TCP buffers the writes: they never block
-           /\ cpc' = [cpc EXCEPT ![c] = IF plan[c].step \in EarlySteps THEN "closing" ELSE "waitaddr"]
+           /\ cpc' = [cpc EXCEPT ![c] = IF plan[c].step \in EarlySteps THEN "closing"
+                                        ELSE IF plan[c].step = "reply" THEN "waitreply" ELSE "waitaddr"]
    /\ UNCHANGED <<plan, dopen, cst, copen, addrSent, infoSent, replySent, spc, cur, inctx, children, backend, ctxs, orphans, hOK>>
 
 \* unreduced variant: the bytes reach the server piece by piece
 NextStage(d) == CASE d = "none" -> "parthdr" [] d = "parthdr" -> "hdr" [] d = "hdr" -> "partpay" [] OTHER -> "pay"
 SendMore(c) ==
-   /\ StepSend /\ cpc[c] \in {"closing", "waitaddr"} /\ dopen[c] = "open"
+   /\ StepSend /\ cpc[c] \in {"closing", "waitaddr", "waitreply"} /\ dopen[c] = "open"
    /\ dsent[c] # SentFor(plan[c].step)
    /\ dsent' = [dsent EXCEPT ![c] = NextStage(@)]
    /\ UNCHANGED <<plan, cpc, dopen, cst, copen, addrSent, infoSent, replySent, backlog, spc, cur, inctx, children, backend, ctxs, orphans, hOK>>
@@ -106,6 +110,12 @@ SendMore(c) ==
 ReadAddr(c) ==
    /\ cpc[c] = "waitaddr" /\ addrSent[c]
    /\ cpc' = [cpc EXCEPT ![c] = IF plan[c].step = "addr" THEN "closing" ELSE "gotaddr"]
+   /\ UNCHANGED <<plan, dsent, dopen, cst, copen, addrSent, infoSent, replySent, backlog, spc, cur, inctx, children, backend, ctxs, orphans, hOK>>
+
+\* context requests: the client reads the reply (a well-formed request) and goes away afterwards
+ReadReply(c) ==
+   /\ cpc[c] = "waitreply" /\ replySent[c]
+   /\ cpc' = [cpc EXCEPT ![c] = "closing"]
    /\ UNCHANGED <<plan, dsent, dopen, cst, copen, addrSent, infoSent, replySent, backlog, spc, cur, inctx, children, backend, ctxs, orphans, hOK>>
 
 ConnectCtrl(c) ==
@@ -226,12 +236,13 @@ S3g ==               \* acknowledge on the pipe; the worker is appended to `chil
    /\ Cont /\ hOK' = hOK
    /\ UNCHANGED <<plan, cpc, dsent, dopen, cst, copen, addrSent, infoSent, replySent, backlog, ctxs, orphans>>
 
+CtxIdOf(req) == IF req = "ctxdup" THEN 1 ELSE 2
 SCtxPayload ==       \* context create (the helper process is built by unpickling BEFORE the duplicate test) / delete
    /\ spc = "cpay"
    /\ IF dsent[cur] = "pay"
       THEN /\ Stay("creply")
-           /\ IF plan[cur].req = "ctxcreate"
-              THEN IF 2 \in ctxs THEN orphans' = orphans + 1 /\ UNCHANGED ctxs
+           /\ IF plan[cur].req \in {"ctxcreate", "ctxdup"}          \* "ctxdup" names id 1: the live context of the healthy client
+              THEN IF CtxIdOf(plan[cur].req) \in ctxs THEN orphans' = orphans + 1 /\ UNCHANGED ctxs
                    ELSE ctxs' = ctxs \cup {2} /\ UNCHANGED orphans
               ELSE ctxs' = ctxs \ {2} /\ UNCHANGED orphans
       ELSE /\ dopen[cur] # "open"
@@ -240,12 +251,17 @@ SCtxPayload ==       \* context create (the helper process is built by unpicklin
 
 SCtxReply ==
    /\ spc = "creply"
-   /\ IF dopen[cur] = "rst" THEN Fail("ctx") /\ UNCHANGED replySent
-      ELSE replySent' = [replySent EXCEPT ![cur] = TRUE] /\ Cont /\ hOK' = hOK
-   /\ UNCHANGED <<plan, cpc, dsent, dopen, cst, copen, addrSent, infoSent, backlog, children, backend, ctxs, orphans>>
+   /\ IF dopen[cur] = "rst"
+      THEN /\ UNCHANGED replySent
+           /\ IF LeakPop /\ "ctx" \in Fixes /\ plan[cur].req \in {"ctxcreate", "ctxdup"}
+              THEN /\ ctxs' = ctxs \ {CtxIdOf(plan[cur].req)}           \* pops whatever is registered under that id ...
+                   /\ Cont /\ hOK' = (hOK /\ plan[cur].req # "ctxdup")   \* ... for a refused duplicate: the healthy client's context
+              ELSE Fail("ctx") /\ UNCHANGED ctxs
+      ELSE replySent' = [replySent EXCEPT ![cur] = TRUE] /\ Cont /\ hOK' = hOK /\ UNCHANGED ctxs
+   /\ UNCHANGED <<plan, cpc, dsent, dopen, cst, copen, addrSent, infoSent, backlog, children, backend, orphans>>
 
 ServerStep == SAccept \/ SHeader \/ SPayload \/ S3a \/ S3b \/ S3c \/ S3d \/ S3e \/ S3f \/ S3g \/ SCtxPayload \/ SCtxReply
-ClientStep == \E c \in Clients : Arrive(c) \/ SendMore(c) \/ ReadAddr(c) \/ ConnectCtrl(c) \/ ReadInfo(c) \/ RoundTrip(c)
+ClientStep == \E c \in Clients : Arrive(c) \/ SendMore(c) \/ ReadReply(c) \/ ReadAddr(c) \/ ConnectCtrl(c) \/ ReadInfo(c) \/ RoundTrip(c)
 FaultStep  == \E c \in Faulty : CloseData(c) \/ CloseCtrl(c)
 Next == ServerStep \/ ClientStep \/ FaultStep \/ (\E c \in Clients : BackendStart(c))
 \* every step makes progress (the graph is acyclic), so weak fairness of Next = every party keeps going
@@ -260,7 +276,7 @@ Rec == [scn |-> [faults |-> [k \in 1..NF |-> plan[k]]],
 
 TypeOK == /\ spc \in {"accept", "hdr", "pay", "S3a", "S3b", "S3c", "S3d", "S3e", "S3f", "S3g", "cpay", "creply", "crashed"}
           /\ cur \in 0..(NF + 1) /\ (spc \in {"accept", "crashed"} <=> cur = 0)
-          /\ \A c \in Clients : /\ cpc[c] \in {"idle", "waitaddr", "gotaddr", "waitinfo", "served", "done", "closing", "refused"}
+          /\ \A c \in Clients : /\ cpc[c] \in {"idle", "waitaddr", "gotaddr", "waitinfo", "waitreply", "served", "done", "closing", "refused"}
                                 /\ backend[c] \in {"none", "starting", "reported", "running", "dead"}
           /\ children \subseteq Clients /\ \A c \in children : backend[c] = "running"
 Inv_ServerAlive == C11_ServerAlive(Rec)
